@@ -1927,6 +1927,10 @@ bool DGXMLScanner::scanStartTagNS(bool& gotData)
                 , ElemStack::Mode_Element
             );
 
+        // scanEndTag reports the element with the URI kept on the element stack
+        if (fDoNamespaces)
+            fElemStack.setCurrentURI(uriId);
+
         fDocHandler->startElement
         (
             *elemDecl
